@@ -173,7 +173,9 @@ def run_case(case):
     if errs:
         kind = "pathset" if "path sets" in errs[0] else ("pcm" if "pcm differs" in errs[0] else "wav")
         return False, "mismatch:" + kind, {"errors": errs[:4], "expected_paths": sorted(expected)[:6]}
-    return True, "ok", None
+    nfrag = sum(1 for p in spec["parts"] for v in p["vols"] for f in v["files"]
+                if len(f["chain"]) > 1 and f["chain"] != list(range(f["chain"][0], f["chain"][0] + len(f["chain"])))) 
+    return True, f"ok:{len(expected)}files:{min(nfrag, 2)}fragmented", None
 
 
 class Check(CheckBase):
